@@ -68,6 +68,13 @@ def rule_escape(report, prog, res):
     from . import c07buf
     implicit_sites = {}
     c07buf.run(report, prog, res, collect=implicit_sites)
+    from .. import lookups
+    lk, n_lk, n_proved = lookups.sites(prog, [f for f in prog.functions.values()
+                                             if f.qname.startswith(('nfc.dep.', 'nfc.llcp.', 'nfc.snep.', 'nfc.handover.'))])
+    for q, v in lk.items():
+        implicit_sites.setdefault(q, []).extend(v)
+    report.stats['table_lookups'] = {'examined': n_lk, 'key proved to be in the table': n_proved}
+    report.floor('C07-R1 table lookups with a computed key', n_lk, 2)
     report.stats['implicit_raise_sites'] = sum(len(v) for v in implicit_sites.values())
 
     def implicit(func, ctx):
@@ -362,12 +369,53 @@ def rule_struct(report, prog, res):
     report.floor('C07-R5 reads', n, 18)
 
 
+def rule_client_waits(report, prog):
+    """R6 (block forever): in the SNEP and handover clients, which promise their callers a timeout, a blocking socket.recv()
+    is issued only after socket.poll("recv", <timeout>) on the same socket returned true -- a peer that keeps the link alive
+    with SYMM PDUs but never sends the awaited fragment, Continue or response cannot hold the calling thread for ever."""
+    n = 0
+    for f in sorted(prog.functions.values(), key=lambda f: f.qname):
+        if not f.qname.startswith(('nfc.snep.client.', 'nfc.handover.client.')):
+            continue
+        recvs = [c for c in calls(f.node) if isinstance(c.func, ast.Attribute) and c.func.attr == 'recv' and not c.args]
+        if not recvs:
+            continue
+        cfg = cfg_of(f)
+        for c in recvs:
+            n += 1
+            sock = norm(c.func.value)
+            polls = []
+            for e, t in cfg.test_nodes.items():
+                for p in ast.walk(e):
+                    if isinstance(p, ast.Call) and norm(p.func) == sock + '.poll' and len(p.args) >= 2 and try_const(p.args[0]) == 'recv' \
+                            and try_const(p.args[1], default=0) is not None and norm(e) == norm(p):
+                        polls.append((t, 'true'))
+            node = cfg_node_for(cfg, c)
+            okk, path = only_via(cfg, node, polls) if node is not None else (False, None)
+            # ... and one poll does not pay for two receptions: from any recv() the next one is again behind a poll
+            for c2 in recvs:
+                n2 = cfg_node_for(cfg, c2)
+                if not okk or n2 is None or norm(c2.func.value) != sock:
+                    continue
+                for nxt, lab in n2.succ:
+                    if lab == 'exc' or (n2, lab) in polls:
+                        continue
+                    if nxt is node or node in cfg.reachable(nxt, avoid_edges=polls):
+                        okk, path = False, [n2] + (cfg.path(nxt, node, avoid_edges=polls) or [])
+                        break
+            report.check(okk, 'C07-R6', key(f.qname, 'recv only after poll("recv", timeout) succeeded', sock), f.loc(c),
+                         '%s.recv() in %s is reached without a successful %s.poll("recv", timeout): the caller\'s timeout does not bound the wait '
+                         'for the peer' % (sock, f.qname, sock), fmt(cfg, path) if path else None)
+    report.floor('C07-R6', n, 4)
+
+
 def run(report, prog, tier):
     res = Resolver(prog)
     rule_escape(report, prog, res)
     c11.rule_recursion(report, prog, res, rule='C07-R2')
     rule_loops(report, prog)
     rule_struct(report, prog, res)
+    rule_client_waits(report, prog)
     report.trusted += ['interface summaries of ContactlessFrontend.exchange / sense / listen (C13)',
                        'ndeflib raises ndef.DecodeError / ndef.EncodeError', 'user callbacks (on-connect, read_func, process_*_request overrides) are opaque']
     report.assumptions += ['implicit exceptions are modelled for the catalogue of the buffer rules only (index, pop, fixed-arity unpack, struct size, '
@@ -446,6 +494,17 @@ for _t in ("raise EncodeError('pdu dsap and ssap field can not be None')", "rais
 
 DEP, PDUM, LLCM, TT3, SNEPS, HOS, CLF = 'nfc.dep', 'nfc.llcp.pdu', 'nfc.llcp.llc', 'nfc.tag.tt3', 'nfc.snep.server', 'nfc.handover.server', 'nfc.clf'
 MUTANTS = [
+    ('snep-continue-wait-unbounded', 'nfc.snep.client', """    if not socket.poll("recv", timeout):
+        return False
+
+    if socket.recv() != b""", """    if socket.recv() != b""", 'C07-R6'),
+    ('snep-fragments-wait-unbounded', 'nfc.snep.client', """                if socket.poll("recv", timeout):
+                    snep_response += socket.recv()
+                else:
+                    return None""", """                snep_response += socket.recv()""", 'C07-R6'),
+    ('handover-client-second-recv', 'nfc.handover.client', "                octets += self.socket.recv()\n", "                octets += self.socket.recv()\n                octets += self.socket.recv()\n", 'C07-R6'),
+    ('dep-res-code-table', DEP, "if frame[0] != 0xD5 or frame[1] not in (1, 5, 7, 9, 11):", "if frame[0] != 0xD5 or frame[1] not in (1, 3, 5, 7, 9, 11):", 'C07-R1'),
+    ('dep-req-code-table', DEP, "if frame[0] != 0xD4 or frame[1] not in (0, 4, 6, 8, 10):", "if frame[0] != 0xD4 or frame[1] > 10:", 'C07-R1'),
     ('dep-res-frame-short', DEP, """    def decode_frame(self, frame):
         if len(frame) < 2:
             error = "NFC-DEP frame length byte must be from 3 to 255"
